@@ -8,6 +8,9 @@ append / append_from_stim_program_text / += / clear on the shared object (not on
 
 from __future__ import annotations
 
+import ast
+
+from ..cfg import CFG
 from ..core import norm
 from ..effects import Engine, Spec, T
 
@@ -21,6 +24,40 @@ STIM_SPEC = Spec(
 )
 # the builders of the circuit (who-may-write): simulate creates it, _handle_state_prep extends the one under construction
 BUILDERS = {"simulate", "_handle_state_prep"}
+
+
+def _build_phase_helper(ix, m, f, receivers):
+    """f is part of the construction of the circuit: every call of it in the module sits in a builder, at a point that cannot be
+    reached from a call of a routine that reads the finished circuit (the other functions receiving `stim_circuit`)"""
+    sites = []
+    for g in ix.funcs_in(m):
+        if g is f:
+            continue
+        for c in ast.walk(g.node):
+            if isinstance(c, ast.Call) and ((isinstance(c.func, ast.Attribute) and c.func.attr == f.name) or (isinstance(c.func, ast.Name) and c.func.id == f.name)):
+                sites.append((g, c))
+    if not sites or any(g.name not in BUILDERS for g, _ in sites):
+        return None
+    readers = {r for r in receivers if r not in BUILDERS and r != f.name}
+    for g in {g for g, _ in sites}:
+        cfg = CFG(g.node, may_raise=lambda n: False)
+
+        def calls(nd, names):
+            return nd.stmt is not None and any(isinstance(c, ast.Call) and ((isinstance(c.func, ast.Attribute) and c.func.attr in names)
+                                                                              or (isinstance(c.func, ast.Name) and c.func.id in names))
+                                               for c in ([nd.stmt.test] if nd.kind == "test" else [nd.stmt]) for c in ast.walk(c)
+                                               ) and nd.kind in ("stmt", "return", "test")
+        starts = [nd.id for nd in cfg.stmts() if calls(nd, readers)]
+        seen, stack = set(), [s_ for st in starts for s_, _l in cfg.succ[st]]
+        while stack:
+            cur = stack.pop()
+            if cur in seen:
+                continue
+            seen.add(cur)
+            stack.extend(s_ for s_, _l in cfg.succ[cur])
+        if any(nd.id in seen for nd in cfg.stmts() if calls(nd, {f.name})):
+            return None
+    return sorted({g.qualname for g, _ in sites})
 
 
 def shared(ctx, rep):
@@ -45,6 +82,13 @@ def shared(ctx, rep):
         n += 1
         rep.analysed(MOD, f.qualname)
         res = eng.analyse(f, env)
+        if res.sinks:
+            receivers = {g.name for g in ix.funcs_in(m) if "stim_circuit" in [x.arg for x in g.node.args.posonlyargs + g.node.args.args + g.node.args.kwonlyargs]
+                         or (g.node.args.kwarg is not None and "stim_circuit" in norm(g.node))}
+            owners = _build_phase_helper(ix, m, f, receivers)
+            if owners:
+                rep.proved("R-C70-shared", f"{MOD}:{f.qualname}", f"part of the construction: called only from {owners}, before any routine that reads the finished circuit")
+                continue
         if not res.sinks:
             rep.proved("R-C70-shared", f"{MOD}:{f.qualname}", "the shared circuit is only read or copied")
         for s in res.sinks:
